@@ -6,6 +6,9 @@ pub mod client;
 
 mod config;
 //pub mod error;
+
+#[cfg(h3_verif)]
+pub mod verif_hooks;
 pub mod ext;
 pub mod quic;
 
